@@ -1,7 +1,9 @@
 /- ModelDriver: evaluates the MODEL's executable definitions (translated helpers, UTF-8 model …).
    One request per line, TAB-separated: `<cmd>\t<args…>` → one answer line. -/
 import Driver.Common
+import Driver.Sexp
 import Gvlean.Generated.Helpers
+import Gvlean.Gen.Exec
 
 open Go Driver
 
@@ -20,6 +22,32 @@ def stepModel (line : String) : String :=
       | "runecount" => toString (runeCount b)
       | "runes" => " ".intercalate ((runes b).map fun p => s!"{p.1}:{p.2}")
       | _ => "bad-op"
+  | ["gen", d] =>
+    match (readSx d).bind sxDecl with
+    | none => "bad-op"
+    | some decl =>
+      let bs := Gen.gen decl
+      if bs.isEmpty then "none" else Gen.renderBlocks bs ++ " ; " ++ Gen.renderSentinels bs ++ " ; polls=" ++ toString bs.length
+  | ["sem", d, ctxs, v] =>
+    -- ctxs: "bg" | "<k>:<canceled|deadline>" (done from the k-th poll on) ; v: value sexp or "nilrecv"
+    match (readSx d).bind sxDecl with
+    | none => "bad-op"
+    | some decl =>
+      let ctx : Option Gen.Ctx :=
+        if ctxs == "bg" then some Gen.bg else
+        match ctxs.splitOn ":" with
+        | [k, kind] =>
+          match k.toNat?, (if kind == "canceled" then some Gen.CtxErr.canceled else if kind == "deadline" then some Gen.CtxErr.deadline else none) with
+          | some k, some e => some (fun j => if j ≥ k then some e else none)
+          | _, _ => none
+        | _ => none
+      match ctx with
+      | none => "bad-op"
+      | some c =>
+        if v == "nilrecv" then (Gen.exec (Gen.gen decl) c none).render else
+        match (readSx v).bind sxVal with
+        | none => "bad-op"
+        | some val => (Gen.exec (Gen.gen decl) c (some val)).render
   | _ => "bad-op"
 
 def main : IO Unit := do
